@@ -204,10 +204,15 @@ again:
   return 0;
 }
 
+#ifdef IOWOW_VERIF
+void (*iwverif_fx)(int kind, int fd, long long off, long long len) = 0;
+#endif
+
 iwrc iwp_pwrite(HANDLE fh, off_t off, const void *buf, size_t siz, size_t *sp) {
   ssize_t ws;
 
 again:
+  IWVERIF_FX(IWVERIF_FX_PWRITE, fh, off, siz);
   ws = pwrite(fh, buf, siz, off);
   if (ws < 0) {
     *sp = 0;
@@ -225,6 +230,7 @@ again:
 iwrc iwp_write(HANDLE fh, const void *buf, size_t size) {
   const char *rp = buf;
   do {
+    IWVERIF_FX(IWVERIF_FX_WRITE, fh, -1, size);
     ssize_t wb = write(fh, rp, size);
     if (wb < 0) {
       if (errno == EINTR) {
@@ -278,11 +284,13 @@ size_t iwp_alloc_unit(void) {
 }
 
 iwrc iwp_ftruncate(HANDLE fh, off_t len) {
+  IWVERIF_FX(IWVERIF_FX_FTRUNCATE, fh, len, 0);
   int rci = ftruncate(fh, len);
   return !rci ? 0 : iwrc_set_errno(IW_ERROR_IO_ERRNO, errno);
 }
 
 iwrc iwp_fallocate(HANDLE fh, off_t len) {
+  IWVERIF_FX(IWVERIF_FX_FALLOCATE, fh, len, 0);
 #if defined(__APPLE__)
   fstore_t fstore = {
     .fst_flags = F_ALLOCATECONTIG,
@@ -410,11 +418,13 @@ uint16_t iwp_num_cpu_cores(void) {
 }
 
 iwrc iwp_fsync(HANDLE fh) {
+  IWVERIF_FX(IWVERIF_FX_FSYNC, fh, 0, 0);
   int rci = fsync(fh);
   return rci ? iwrc_set_errno(IW_ERROR_IO_ERRNO, errno) : 0;
 }
 
 iwrc iwp_fdatasync(HANDLE fh) {
+  IWVERIF_FX(IWVERIF_FX_FDATASYNC, fh, 0, 0);
 #ifdef __APPLE__
   if (fcntl(fh, F_FULLFSYNC) == -1) {
     return iwrc_set_errno(IW_ERROR_IO_ERRNO, errno);
